@@ -2040,6 +2040,12 @@ fn init_check(run: &Run, inp: &InitInput, problem: Arc<CoreProblem>) -> Option<S
                 run.observe("init_solution", "tagged place and reported interval disagree (C03's subject, not judged)");
             }
             n_multi_task += pp.job_index.get(&e.job).is_some_and(|j| pp.jobs[*j].tasks.len() > 1) as u64;
+            // sparse place tags: served at a tagged place whose position in the task's tag list differs from its place index
+            if let (Some(tags), Some(tag)) = (e.task_tags.as_ref(), e.tag.as_ref()) {
+                if tags.iter().position(|(_, t)| t == tag).zip(tags.iter().find(|(_, t)| t == tag).map(|(i, _)| *i)).is_some_and(|(pos, idx)| pos != idx) {
+                    run.observe("init_solution", "activities at a tagged place behind an untagged one (sparse tags)");
+                }
+            }
             if e.loc != a.loc {
                 held = false;
                 fail("location-differs", format!("tour {key:?}: {} of '{}' is at location {} in the solution and at {} after read_init_solution", e.kind, e.job, e.loc, a.loc), dump());
@@ -2156,6 +2162,58 @@ fn colocate_tasks(rng: &mut Rng, problem: &mut Value) -> bool {
     any
 }
 
+/// Removes the tag from some places of multi-place tasks / optional breaks, so that the place tags of a task become a
+/// SPARSE list (place index, tag). Stays inside what the documentation and the reader ask for: only single-task jobs
+/// (the hint in jobs.md asks for a tag on each place of mixed jobs), at least one tag is kept, and a tag is dropped only
+/// from a place whose location no other place of the task shares (an untagged place is then identified by its location).
+fn sparsify_tags(rng: &mut Rng, problem: &mut Value) -> bool {
+    fn sparsify(rng: &mut Rng, places: &mut Vec<Value>) -> bool {
+        let n = places.len();
+        if n < 2 || !places.iter().all(|p| p.get("tag").is_some_and(|t| t.is_string())) || !rng.chance(0.6) {
+            return false;
+        }
+        let locs: Vec<Option<String>> = places.iter().map(|p| p.get("location").filter(|l| !l.is_null()).map(|l| l.to_string())).collect();
+        let droppable: Vec<usize> = (0..n).filter(|i| locs[*i].is_some() && (0..n).all(|j| j == *i || locs[j] != locs[*i])).collect();
+        if droppable.is_empty() {
+            return false;
+        }
+        // keep one tag, preferably not on the first place: an untagged place in front of a tagged one is the interesting layout
+        let keep = if n > 1 && rng.chance(0.7) { rng.range_usize(1, n - 1) } else { rng.usize_below(n) };
+        let mut any = false;
+        for i in droppable {
+            if i != keep && (i < keep || rng.chance(0.5)) {
+                places[i].as_object_mut().map(|o| o.remove("tag"));
+                any = true;
+            }
+        }
+        any
+    }
+    let mut any = false;
+    for job in problem["plan"]["jobs"].as_array_mut().into_iter().flatten() {
+        let n_tasks: usize = ["pickups", "deliveries", "replacements", "services"].iter().map(|k| job.get(*k).and_then(|t| t.as_array()).map_or(0, |t| t.len())).sum();
+        if n_tasks != 1 {
+            continue;
+        }
+        for key in ["pickups", "deliveries", "replacements", "services"] {
+            for task in job.get_mut(key).and_then(|t| t.as_array_mut()).into_iter().flatten() {
+                if let Some(places) = task.get_mut("places").and_then(|p| p.as_array_mut()) {
+                    any |= sparsify(rng, places);
+                }
+            }
+        }
+    }
+    for vehicle in problem["fleet"]["vehicles"].as_array_mut().into_iter().flatten() {
+        for shift in vehicle.get_mut("shifts").and_then(|s| s.as_array_mut()).into_iter().flatten() {
+            for br in shift.get_mut("breaks").and_then(|b| b.as_array_mut()).into_iter().flatten() {
+                if let Some(places) = br.get_mut("places").and_then(|p| p.as_array_mut()) {
+                    any |= sparsify(rng, places);
+                }
+            }
+        }
+    }
+    any
+}
+
 fn init_case(run: &Run, case_seed: u64) {
     let mut rng = Rng::new(case_seed);
     let mut cfg = GenCfg { min_jobs: 5, max_jobs: *rng.pick(&[8usize, 15, 30]), ..GenCfg::default() };
@@ -2169,6 +2227,9 @@ fn init_case(run: &Run, case_seed: u64) {
     let mut gp: PragProblem = generate(&mut rng, &cfg);
     if colocate_tasks(&mut rng, &mut gp.problem) {
         gp.features.insert("colocated-tasks".into());
+    }
+    if rng.chance(0.6) && sparsify_tags(&mut rng, &mut gp.problem) {
+        gp.features.insert("sparse-place-tags".into());
     }
     let max_gens = run.by_tier(20usize, 60usize);
     let (config, shape) = if rng.chance(0.3) { (simple_config(rng.range_usize(1, max_gens), 1, 2), Default::default()) } else { gen_config(&mut rng, max_gens, None) };
@@ -2698,6 +2759,7 @@ fn main() {
     run.floor("init-solution: tours compared", run.observed("init_solution", "tours compared"), run.by_tier(60, 600));
     run.floor("init-solution: customer activities compared", run.observed("init_solution", "customer activities compared"), run.by_tier(400, 4000));
     run.floor("init-solution: activities of multi-place tasks", run.observed("init_solution", "activities of multi-place tasks"), 20);
+    run.floor("init-solution: activities at a tagged place behind an untagged one", run.observed("init_solution", "activities at a tagged place behind an untagged one (sparse tags)"), 3);
     run.floor("init-solution: activities of multi-task jobs", run.observed("init_solution", "activities of multi-task jobs"), 20);
     run.floor("init-solution: unassigned ids compared", run.observed("init_solution", "unassigned ids compared"), 5);
     run.floor("csv tables imported", run.observed("csv_rows", "vehicle rows").min(run.observed("csv_api", "import_problem(\"csv\")") + run.observed("csv_api", "read_csv_problem")), run.by_tier(100, 1000));
